@@ -49,6 +49,17 @@ def generate(rng: random.Random, tier: str) -> dict:
         t["config"]["max_preconditioner_dim"] = rng.choice([1, 2, 2, 3, 3, 4, 5])
     if t["config"]["preconditioner"]["kind"] == "shampoo":
         t["config"]["preconditioner"]["solver"]["enhance_stability"] = False
+    if len(t["params"]) >= 2 and rng.random() < 0.3:
+        # equal-shaped parameters whose gradients come and go in turns: a gradient block paired with another parameter's
+        # block cannot hide behind a shape error or a change in the number of active blocks
+        j = rng.randrange(len(t["params"]))
+        for i in range(len(t["params"])):
+            if i != j and rng.random() < 0.7:
+                t["params"][i]["shape"] = list(t["params"][j]["shape"])
+        style = gen.gen_presence_style(rng, len(t["params"]))
+        style["style"] = rng.choice(["flip", "adversarial", "adversarial"])
+        n_events = len([e for e in t["events"] if e["op"] == "step"]) or 2
+        t["events"] = gen.gen_history(rng, t["params"], t["groups"], t["config"], max(3, n_events), style=style)
     if len(t["events"]) > 12 and tier == "quick":
         t["events"] = t["events"][:12]
     if rng.random() < 0.15:
